@@ -376,14 +376,23 @@ func genTS(r *Rng, nsamp int, allowEMT bool, onlyEMT bool) tsSpec {
 // "C08" (edge-multi only).
 func genPipe(r *Rng, tier string, profile string) *pipeCase {
 	c := &pipeCase{}
+	// profile C09: the C01 pipeline with group-trigger connections always present (chains, fans, cycles,
+	// self loops), edited between blocks, on trigger-rich streams of 2..4 channels
+	c09 := profile == "C09"
+	if c09 {
+		profile = "C01"
+	}
 	c.nch = r.Pick(1, 1, 2, 2, 3)
+	if c09 {
+		c.nch = r.Pick(2, 2, 3, 3, 4)
+	}
 	if profile == "C08" {
 		c.nch = r.Pick(1, 1, 2)
 	}
 	// directed share of C01: an edge-multi channel is the group-trigger SOURCE of channels that are in
 	// another trigger mode (their secondaries are cut at frames found by the edge-multi search, possibly
 	// one block late) - needs every channel to retain the same history
-	mixed := profile == "C01" && r.Chance(12)
+	mixed := profile == "C01" && r.Chance(12) && !c09
 	if mixed {
 		c.nch = r.Pick(2, 2, 3)
 	}
@@ -409,9 +418,12 @@ func genPipe(r *Rng, tier string, profile string) *pipeCase {
 	if r.Chance(20) && (profile == "C01" || r.Chance(40)) {
 		total = r.Range(1, 3*c.nsamp)
 	}
+	if c09 {
+		total = r.Range(4*c.nsamp, 20*c.nsamp)
+	}
 	c.streams = make([][]dastard.RawType, c.nch)
 	for ch := range c.streams {
-		c.streams[ch] = genStreamHot(r, total, c.nsamp, c.signed[ch], (profile != "C01" && r.Chance(80)) || mixed)
+		c.streams[ch] = genStreamHot(r, total, c.nsamp, c.signed[ch], (profile != "C01" && r.Chance(80)) || mixed || (c09 && r.Chance(85)))
 	}
 	// start of the run: restored settings and/or a ConfigureTriggers request
 	c.saved = map[int]tsSpec{}
@@ -461,8 +473,11 @@ func genPipe(r *Rng, tier string, profile string) *pipeCase {
 			c.ops = append(c.ops, pipeOp{kind: "T", chans: bad, ts: genTS(r, c.nsamp, allowEMT, false)})
 		}
 	}
-	if profile == "C01" && c.nch > 1 && r.Chance(50) {
+	if profile == "C01" && c.nch > 1 && (r.Chance(50) || c09) {
 		np := r.Range(1, 3)
+		if c09 {
+			np = r.Range(1, 5)
+		}
 		var ps [][2]int
 		for i := 0; i < np; i++ {
 			ps = append(ps, [2]int{r.Intn(c.nch), r.Intn(c.nch)})
@@ -479,6 +494,9 @@ func genPipe(r *Rng, tier string, profile string) *pipeCase {
 	pos := 0
 	curNpre, curNsamp := c.npre, c.nsamp
 	for _, l := range parts {
+		if pos > 0 && c09 && r.Chance(12) { // connection edits between blocks
+			c.ops = append(c.ops, pipeOp{kind: []string{"GA", "GD"}[r.Intn(2)], pairs: [][2]int{{r.Intn(c.nch), r.Intn(c.nch)}}})
+		}
 		if pos > 0 && r.Chance(6) && profile != "C08" {
 			switch r.Intn(5) {
 			case 0, 1:
@@ -494,6 +512,9 @@ func genPipe(r *Rng, tier string, profile string) *pipeCase {
 			case 3:
 				if profile == "C01" {
 					c.ops = append(c.ops, pipeOp{kind: "GS"})
+				}
+				if c09 { // and connect again
+					c.ops = append(c.ops, pipeOp{kind: "GA", pairs: [][2]int{{r.Intn(c.nch), r.Intn(c.nch)}, {r.Intn(c.nch), r.Intn(c.nch)}}})
 				}
 			case 4:
 				c.ops = append(c.ops, pipeOp{kind: "L", nsamp: r.Pick(0, 2, 3, 5, -1), npre: r.Pick(0, 1, 2, 3, 7)}) // mostly invalid
@@ -552,6 +573,10 @@ func init() {
 	caseGens["C01"] = caseGen{count: pipeCount(400, 12000), gen: func(r *Rng, tier string, idx int) (string, func() string) {
 		c := genPipe(r, tier, "C01")
 		return c.input(), c.run
+	}}
+	caseGens["C09"] = caseGen{count: pipeCount(250, 1500), gen: func(r *Rng, tier string, idx int) (string, func() string) {
+		c := genPipe(r, tier, "C09")
+		return "pipe " + c.input(), c.run
 	}}
 	caseGens["C02"] = caseGen{count: pipeCount(500, 12000), gen: func(r *Rng, tier string, idx int) (string, func() string) {
 		c := genPipe(r, tier, "C02")
